@@ -137,6 +137,99 @@ def run_mem(case: dict):
     return ok(total=len(want), **{k: v["len"] for k, v in infos.items()})
 
 
+# ------------------------------------------------------------------ start_server assembly, static files, stalled reader
+
+_static = {}
+
+
+def _static_root():
+    import os
+
+    from vlib import scratch
+
+    if _static.get("dir") and os.path.isdir(_static["dir"]):
+        return _static["dir"]
+    d = scratch.subdir("c06-static")
+    _static["dir"] = d
+    return d
+
+
+def static_case_st():
+    return st.fixed_dictionaries({
+        "n": length_st(600_000),
+        "content": st.sampled_from(["pattern", "text"]),
+        "stall": st.sampled_from([0, 1, 8, 20, 28]),           # virtual seconds the reader stalls before draining
+        "backend": st.sampled_from(["stdlib", "pyopenssl"]),
+        "tls": st.sampled_from(["1.3", "1.2"]),
+    })
+
+
+def run_static(case: dict):
+    """Real start_server (captured factory incl. the ssl_* arguments it passes to create_server), static text file,
+    a reader that stalls for a while (TCP backlog) and then drains."""
+    import asyncio
+    import os
+    import ssl
+
+    setup_logging()
+    from nauyaca.server.config import ServerConfig
+    from nauyaca.server.middleware import CertificateAuthConfig, CertificateAuthPathRule
+
+    root = _static_root()
+    body = make_body(case["n"], case["content"], 0)
+    name = f"f-{case['n']}-{case['content']}.gmi"
+    path = os.path.join(root, name)
+    if not os.path.exists(path):
+        with open(path, "wb") as f:
+            f.write(body)
+    want = b"20 text/gemini\r\n" + body
+    c = certs.get("rsa-a")
+
+    async def scenario(loop):
+        cfg = ServerConfig(host="127.0.0.1", port=1965, document_root=root, certfile=c.cert_path, keyfile=c.key_path)
+        kw = {}
+        if case["backend"] == "pyopenssl":
+            kw["certificate_auth_config"] = CertificateAuthConfig(path_rules=[CertificateAuthPathRule(prefix="/admin/", require_cert=True)])
+        factory, sslctx, task = await stacks.capture_start_server(loop, cfg, enable_rate_limiting=False, **kw)
+        v = ssl.TLSVersion.TLSv1_3 if case["tls"] == "1.3" else ssl.TLSVersion.TLSv1_2
+        conn = memnet.ServerConn(loop, factory, sslctx, memnet.permissive_client_ctx(minv=v, maxv=v), auto_close=False)
+        if not await conn.handshake():
+            task.cancel()
+            return conn, "handshake-failed"
+        conn.tcp.backlog_mode = True
+        conn.client.to_send += f"gemini://localhost/{name}\r\n".encode()
+        conn.client.step()
+        conn.tcp.feed(conn.client.take())
+        await vloop.settle(6)
+        await asyncio.sleep(case["stall"])       # the reader is stalled: ciphertext sits in the TCP backlog
+        for _ in range(200000):
+            if not conn.tcp.backlog:
+                break
+            conn.tcp.pump(4)
+            conn.client.step()
+            await vloop.settle(1)
+        conn.tcp.backlog_mode = False
+        conn.auto_close = True
+        await conn.pump()
+        await asyncio.sleep(60)
+        await conn.pump()
+        task.cancel()
+        return conn, None
+
+    conn, err = vloop.run(scenario)
+    if err:
+        return viol("handshake-failed", repr(conn.client.error))
+    got = bytes(conn.client.plain)
+    info = {"len": len(got), "backend": case["backend"], "fin": conn.server_closed}
+    if got != want:
+        i = next((k for k in range(min(len(got), len(want))) if got[k] != want[k]), min(len(got), len(want)))
+        return viol("stream-differs", f"{case['backend']} static file, reader stalled {case['stall']}s: expected {len(want)} bytes, got {len(got)}; "
+                    f"first difference at {i}", **info)
+    if not conn.server_closed:
+        return viol("no-end-of-stream", f"{case['backend']}", **info)
+    return ok(total=len(want), **info)
+
+
 _live = {}
 
 
@@ -224,6 +317,12 @@ def _bucket(case, v):
 
 
 LANES = [
+    Lane(name="static-stall", run_case=run_static, strategy=static_case_st, budget={"quick": 480, "thorough": 6000},
+         shards={"quick": 16, "thorough": 32}, nontrivial=lambda c, v: c["n"] > 16000 or c["stall"] > 0,
+         labels=lambda c, v: [c["backend"], "stall:%d" % c["stall"], "tls" + c["tls"], "size:" + ("big" if c["n"] > 100000 else "small")],
+         bucket=_bucket,
+         rule="real start_server assembly (both backends) serving generated static text files to a reader that stalls "
+              "0-28 virtual seconds with the ciphertext held in the TCP backlog, then drains"),
     Lane(name="live", run_case=run_live, strategy=case_st(4 * 1024 * 1024), budget={"quick": 160, "thorough": 2400},
          shards={"quick": 8, "thorough": 16}, nontrivial=_nontrivial, labels=_labels, bucket=_bucket,
          rule="live loopback sockets, both backends, drain/slow/bursty readers, bodies up to 4 MiB"),
